@@ -44,7 +44,7 @@ def main():
     for f in demo_files:
         if f not in places:
             print(f"PARSE-FAIL {pid}/{k}: no placement for {f} in RUN.md"); return 4
-    cmds = [c.strip().strip("`") for c in re.findall(r"^\s*`?(cargo (?:test|run)[^\n`]*)`?\s*$", run_md, re.M)]
+    cmds = [c.strip().strip("`") for c in re.findall(r"(cargo (?:test|run)[^\n`]*)", run_md)]
     cmds = [c for c in cmds if "--workspace" not in c and any(os.path.splitext(f)[0] in c for f in demo_files)]
     cmds = list(dict.fromkeys(cmds))
     if not cmds:
